@@ -457,7 +457,17 @@ let run_monitor toks =
           incr nev;
           evs := Monitor.MFsync (opt "ok" rest "0" = "1") :: !evs
         | _ -> ()) lines;
-    (match Monitor.mrun Monitor.minit (Stdlib.List.rev !evs) N0 with
+    let init =
+      match toks with
+      | _ :: image :: _ ->
+        (* a recovery trace: start from the journal / metadata state of the image recovery opened *)
+        let img = read_file image in
+        let bytes_of at len = Stdlib.List.init len (fun i -> byte_table.(Char.code img.[at + i])) in
+        let slot k = if Stdlib.String.length img >= (4 + 3 * k) * 4096 then MetaJournal.decode_slot (bytes_of ((1 + 3 * k) * 4096) 12288) !total else None in
+        let mg k = if Stdlib.String.length img >= (k + 1) * 4096 then (match MetaJournal.decode_meta (bytes_of (k * 4096) 4096) with Some m -> Some m.MetaJournal.m_generation | None -> None) else None in
+        Monitor.minit_of_image (slot 0) (slot 1) (mg 0) (mg 7)
+      | _ -> Monitor.minit in
+    (match Monitor.mrun init (Stdlib.List.rev !evs) N0 with
      | (Monitor.Accept _, _) -> Stdlib.Printf.sprintf "accepted events=%d" !nev
      | (Monitor.Reject w, i) -> Stdlib.Printf.sprintf "rejected rule=%s at-device-event=%s" (string_of_n w) (string_of_n i))
   | _ -> failwith "monitor: missing trace"
